@@ -42,9 +42,13 @@ def managed_triples(ch):
 def enc_cases(tier):
     cs = []
 
-    def add(api, ch, rate, arg, ctl, stage, nblk, cl, flav='plain'):
+    def add(api, ch, rate, arg, ctl, stage, nblk, cl, flav='plain', ho=None):
         a = arg if isinstance(arg, str) else repr(float(arg))
-        cs.append((f'e {api} {ch} {rate} {a} {ctl} {stage} {nblk} {cl}', {'space': 'enc', 'flav': flav, 'api': api, 'ch': ch, 'rate': rate, 'arg': a, 'ctl': ctl, 'stage': stage, 'nblk': nblk, 'cl': cl}))
+        d = {'space': 'enc', 'flav': flav, 'api': api, 'ch': ch, 'rate': rate, 'arg': a, 'ctl': ctl, 'stage': stage, 'nblk': nblk, 'cl': cl}
+        if ho:
+            d['ho'] = ho
+            d['sub'] = 'headerout'
+        cs.append((f'e {api} {ch} {rate} {a} {ctl} {stage} {nblk} {cl}' + (f' {ho}' if ho else ''), d))
     thorough = tier == 'thorough'
     # (1) VBR one-step, the whole (channels x rates x quality) grid
     for ch in CH:
@@ -93,6 +97,18 @@ def enc_cases(tier):
         for api in 'mM':
             for st, n in ((0, 0), (2, 0), (6, 1)):
                 add(api, ch, rate, '%d,%d,%d' % tr, 0, st, n, 0)
+    # (8) vorbis_analysis_headerout called 1, 2, 3 times on the same dsp state (same comment struct, changed comment struct, a second
+    #     comment struct; before the first analysis_buffer and again after a block of audio has been encoded), then 0 / some / all audio, clear calls
+    for ch in (1, 2, 6):
+        for rate in ((8000, 44100) if not thorough else (8000, 22050, 44100, 48000)):
+            per = 16000 if rate < 26000 else 64000
+            for api, arg in (('v', 0.4), ('m', '-1,%d,-1' % (per * ch))) + ((('s', 0.4), ('M', '%d,%d,%d' % (per * ch * 2, per * ch, per * ch // 2))) if thorough else ()):
+                for ho in HO_PATTERNS:
+                    for st, n in ((4, 0), (6, 1), (7, 5)):
+                        for cl in ((0, 1) if st == 4 else (0,)):
+                            add(api, ch, rate, arg, 0, st, n, cl, 'plain', ho)
+                for ho in ('hh', 'hHN', 'hah'):
+                    add(api, ch, rate, arg, 0, 6, 1, 0, 'asan', ho)
     # (7) second witness for double / invalid frees: the same paths under ASan on one rate per template band
     #     (if the asan flavour's UBSan stops the encoder somewhere that is recorded as an observation, see assumptions)
     for ch in CH:
@@ -104,6 +120,9 @@ def enc_cases(tier):
             for st, n in [(2, 0), (6, 1)]:
                 add('m', ch, rate, '-1,%d,-1' % (32000 * ch), 0, st, n, 0, 'asan')
     return cs
+
+
+HO_PATTERNS = ['h', 'hh', 'hhh', 'hH', 'hHH', 'hN', 'hNh', 'NN', 'hah', 'hhah', 'hHaH', 'ah', 'ahh', 'hahah']
 
 
 def is_51_template(m, k):
@@ -118,11 +137,14 @@ def is_51_template(m, k):
 def judge_enc(m, r, k):
     rc = k['rc'].split(',')
     out = 'rc%s/%s' % (rc[0], rc[2]) + ':reached=' + STAGE_NAME[int(k['reached'])]
-    cls = ('enc', m['api'], 'ctl%d' % m['ctl'], STAGE_NAME[m['stage']] + str(m['nblk']), out, 'cl%d' % m['cl'])
+    cls = ('enc', m['api'], 'ctl%d' % m['ctl'], STAGE_NAME[m['stage']] + str(m['nblk']), out, 'cl%d' % m['cl']) + (('headerout=' + m['ho'] + ':n=' + k.get('nho', '?'),) if 'ho' in m else ())
     lb, ln, mid = int(k['leakB']), int(k['leakN']), int(k['mid'])
     if lb or ln or mid:
         if is_51_template(m, k) and ln == 1 and lb == int(k['rsz']) and int(k['reached']) >= 2:
             key = 'enc_51_residue_param_overwritten_leak'
+        elif 'ho' in m and int(k.get('nho', '0')) >= 2:
+            # named predicate: vorbis_analysis_headerout was called more than once on the dsp state
+            key = f"enc_leak_repeated_headerout:pattern={m['ho']}:calls={k['nho']}:blocks={ln}"
         else:
             key = f"enc_leak:api={m['api']}:ch={m['ch']}:rate={m['rate']}:ctl={m['ctl']}:stage={STAGE_NAME[m['stage']]}:sizes={k['live']}"
         return 'viol', key, f"encoder path {m['api']} ch={m['ch']} rate={m['rate']} arg={m['arg']} ctl={m['ctl']} stopped after {STAGE_NAME[m['stage']]} (n={m['nblk']}), clear calls twice: {lb} bytes in {ln} blocks still live (after first round {mid}); live block sizes {k['live']}; rc={k['rc']}", cls
@@ -160,7 +182,14 @@ def synth_files():
     for ft in (0, 1):
         for ch in (1, 2):
             s = vsynth.base_setup(channels=ch, bs0=64, bs1=128, rate=8000, floortype=ft, restype=(2 if ch == 2 else 1), coupling=[(0, 1)] if ch == 2 else [])
-            for sq, modes in SYN_SEQ.items():
+            seqs = dict(SYN_SEQ)
+            if ch == 1:
+                seqs['modes3'] = [0, 2, 1, 2]
+            for sq, modes in seqs.items():
+                if sq == 'modes3':
+                    # a third mode (long) selecting the same mapping: 3 modes over 1 mapping
+                    s = vsynth.base_setup(channels=ch, bs0=64, bs1=128, rate=8000, floortype=ft, restype=1, coupling=[])
+                    s.modes = s.modes + [vspec.Mode(1, 0)]
                 name = f'c13_syn_f{ft}_c{ch}_{sq}'
                 fl = vsynth.flags_for(s, modes)
                 f = vsynth.Filler(fixed={'f1.nonzero': 1, 'f0.amp': lambda c, d: 1 + (c if isinstance(c, int) else 0) % 4}, a=7, b=3)
@@ -684,6 +713,14 @@ class Run:
                 if cls not in self.samples:
                     self.samples[cls] = {'case': c, 'result': r[:260]}
         # coverage facts for the vacuity guards
+        if m['space'] == 'enc' and 'ho' in m and verdict == 'ok':
+            n = int(k.get('nho', '0'))
+            if n >= 2:
+                self.stats['headerout_repeated'] = self.stats.get('headerout_repeated', 0) + 1
+            if n >= 3:
+                self.stats['headerout_3x'] = self.stats.get('headerout_3x', 0) + 1
+            if n >= 2 and 'a' in m['ho'] and int(k['packets']) > 0:
+                self.stats['headerout_after_audio'] = self.stats.get('headerout_after_audio', 0) + 1
         if m['space'] == 'dec':
             if k.get('rja') == '1':
                 self.stats['rja'] += 1
@@ -814,7 +851,7 @@ def run(tier):
         'samples': samples,
         'rule': 'case = one usage path on the real library ending in the documented clear calls issued twice, run in a forked child with the wrapped allocator switched on before the first library call '
                 '(harness buffers from __real_malloc). (enc) channels x rates (one inside every template band + band edges) x quality steps, VBR one-step / two-step (+ every state-changing encoder ctl) and '
-                'managed one-step / two-step, rejected tuples, stopped after each of setup / ctl / setup_init / analysis_init / headerout / block_init / 0,1,5 analysed blocks / drained end of stream; '
+                'managed one-step / two-step, rejected tuples, stopped after each of setup / ctl / setup_init / analysis_init / headerout (also called 2 and 3 times with the same / a changed / a second comment struct, before and after encoded audio) / block_init / 0,1,5 analysed blocks / drained end of stream; '
                 '(dec) for several encoder-made streams every byte prefix of each header, every single-bit flip of id+comment headers and of the whole setup header (smallest stream; all in thorough), all header/audio sequences of length <=3, '
                 'then synthesis_init + block_init + 0/1/3 packets when accepted; plus specification-level synthesised floor-0 and floor-1 set-ups (mono / coupled stereo, distinct 64/128 blocks) decoding exactly {no packet, short, long, short+long, long+short, long+long, a longer mix} before the clear calls (the same files and a chain of them also through vorbisfile); (vf) every truncation length and single-page drop of a 2-link chain, garbage prefixes, non-Vorbis streams, duplicate-serial BOS pages in the initial BOS group of the first / a later link, seekable / streaming, '
                 'ov_open_callbacks / ov_test_callbacks(+ov_test_open), 0/1 operations (reads, every seek kind at in-range / boundary / out-of-range targets), and every applicable single callback fault '
@@ -850,6 +887,7 @@ def run(tier):
         chk.guard(cut or kinds.get('vf', 0) >= 20, 'vorbisfile classes')
     if 'enc' in only:
         chk.guard(cut or kinds.get('enc', 0) >= 20, 'encoder classes')
+        chk.guard(cut or (st.get('headerout_repeated', 0) >= 100 and st.get('headerout_3x', 0) >= 20 and st.get('headerout_after_audio', 0) >= 20), 'vorbis_analysis_headerout was repeated (2x, 3x, and again after encoded audio) on set-ups that reached it, for mono / stereo / 5.1, VBR and managed')
         chk.guard(cut or any(c[0] == 'enc' and 'rc-13' in c[4] for c in cls), 'rejected encoder set-ups were exercised')
     return chk.finish()
 
